@@ -241,6 +241,27 @@ func bPyTorch(n int, f flavour) *scenario {
 	return sc
 }
 
+// bPyTorchSegments: a PyTorchJob whose WORKER template declares topology segments (segment size,
+// required placement, a topology of its own) while the job object names ANOTHER topology: the master
+// pod does not carry the worker template's annotations, so whatever it derives for the worker segments
+// has to come out the same as what the workers derive.
+func bPyTorchSegments(n int, f flavour) *scenario {
+	n = []int{0, 3, 4, 3}[min(n, 3)] // master + 2 or 3 workers (3 workers: two segments, the second one partial)
+	sc := &scenario{Kind: "PyTorchJob", Chain: "PyTorchJob (worker segments, topology on job AND worker template) -> Pod", Part: same(n)}
+	wann := map[string]string{"kai.scheduler/segment-size": "2", "kai.scheduler/segment-topology-required-placement": "rack", "kai.scheduler/topology": "topo-worker"}
+	wf := f
+	wf.podAnn = merge(f.podAnn, wann)
+	specs := obj{"Master": obj{"replicas": int64(1), "restartPolicy": "OnFailure", "template": tmpl(f, "master")},
+		"Worker": obj{"replicas": int64(n - 1), "restartPolicy": "OnFailure", "template": tmpl(wf, "worker")}}
+	job := mkOwner("kubeflow.org/v1", "PyTorchJob", "pt3", f.ownerLabels, merge(f.ownerAnn, map[string]string{"kai.scheduler/topology": "topo-job"}), obj{"pytorchReplicaSpecs": specs}, nil)
+	sc.Owners = append(sc.Owners, job)
+	sc.Pods = append(sc.Pods, mkPod("pt3-master-0", "master", kubeflowLabels("pt3", "master", 0), nil, f, refTo(job)))
+	for i := 1; i < n; i++ {
+		sc.Pods = append(sc.Pods, mkPod(fmt.Sprintf("pt3-worker-%d", i-1), "worker", kubeflowLabels("pt3", "worker", i-1), nil, wf, refTo(job)))
+	}
+	return sc
+}
+
 func bPyTorchMinAvailable(n int, f flavour) *scenario {
 	sc := &scenario{Kind: "PyTorchJob", Chain: "PyTorchJob(schedulingPolicy.minAvailable) -> Pod", Part: same(n)}
 	job := pytorchOwner("pt2", n, f, int64(max(1, n-1)), nil, f.ownerLabels, f.ownerAnn)
@@ -481,6 +502,7 @@ var kinds = []kindSpec{
 	{"ArgoWorkflow-Pod", bArgoPod, false},
 	{"ArgoWorkflow-PyTorchJob", bArgoPyTorch, false},
 	{"UnknownCRD", bUnknown, false},
+	{"PyTorchJob-segments", bPyTorchSegments, false},
 	{"PyTorchJob-minAvailable", bPyTorchMinAvailable, true},
 	{"JobSet-AnyOrder", bJobSetAnyOrder, true},
 	{"LeaderWorkerSet-2groups", bLWSTwoGroups, true},
